@@ -47,7 +47,10 @@ DESC = {
     # an uncacheable child (forward reference) among cacheable siblings; xF2: the same hint asked from a second module
     "xF": ("mxF", "A", 0), "xF2": ("mxF", "A", 1), "xL": ("mxL", "A", 0), "xM": ("mxM", "A", 0),
     "xD": ("mxD", "A", 0), "xN": ("mxN", "A", 0),
+    # type['W']: class-valued subjects, issubclass() against the forward-reference proxy; 'W' for contrast
+    "tW": ("tref", "W", 0), "rW": ("ref", "W", 0),
 }
+DECORATED = ("D", "W")        # classes that are themselves @beartype-decorated (mirrors Decorated in Door.tla)
 # mixed hints: (hint expression, the probe container around an instance I)
 MIX = {"mxF": ("tuple['A', int]", "(%s, 1)"), "mxL": ("tuple[int, 'A']", "(1, %s)"), "mxM": ("tuple[int, 'A', int]", "(1, %s, 1)"),
        "mxD": ("dict['A', int]", "{%s: 1}"), "mxN": ("tuple['A', list[int]]", "(%s, [1])")}
@@ -58,7 +61,7 @@ def asked_from_b(d):
     return d is not None and (DESC[d][0] in MIX or DESC[d][0] == "ref") and DESC[d][2] == 1
 # probe names per scope: mirrors ProbeNames in Door.tla
 PROBE_NAMES = {"repr": ["A"], "reprT": ["A"], "misc": ["A"], "conf": [], "reprD": ["D"], "fail": ["A", "U"],
-               "mix": ["A", "E"], "mixB": ["A"], "all": ["A", "D", "U", "E"], "id": [], "idT": [], "idC": []}
+               "mix": ["A", "E"], "mixB": ["A"], "tref": ["W"], "all": ["A", "D", "U", "E"], "id": [], "idT": [], "idC": []}
 
 # themes: what "a name bound to an object, later rebound to a distinct object with the same repr" is
 # made of.  `kind` words enter the violation keys.
@@ -99,7 +102,7 @@ class K9Clear: pass
 
 def class_def(theme, n, g):
     """source text binding name n to its generation-g object."""
-    if n == "D":
+    if n in DECORATED:
         return f"@beartype\nclass {n}: pass"
     if theme == "class" or n != "A":
         return f"class {n}: pass"
@@ -132,6 +135,8 @@ def hint_expr(d, theme="class", container="list"):
         base = f"Literal[{n}.X]"
     if sh in MIX:
         return MIX[sh][0]
+    if sh == "tref":
+        return f"type[{n!r}]"
     if sh == "cls":
         return base
     if sh == "list":
@@ -255,7 +260,7 @@ class _World:
             self.spy = _Spy()
         elif spy:
             self.spy = spy
-        self.gen = {"A": -1, "B": -1, "U": -1, "D": -1, "E": 0}
+        self.gen = {"A": -1, "B": -1, "U": -1, "D": -1, "E": 0, "W": -1}
         for n in ("A", "B", "D"):
             self.define(n)
         # a second module binding the name "A" to a class of its own (the model's E); questions "asked from module b"
@@ -294,6 +299,8 @@ class _World:
                 out.append((f"list:{n}:{g}", CONTAINERS[self.container][1] % i))
                 if d is not None and DESC[d][0] in MIX:
                     out.append((f"mix:{n}:{g}", MIX[DESC[d][0]][1] % i))
+                if d is not None and DESC[d][0] == "tref":
+                    out.append((f"type:{n}:{g}", f"{n}__{g}"))         # the class object itself
         out += [("none", "None"), ("int", "1"), ("true", "True"), ("float", "1.5")]
         return [(pid, self.ev(e)) for pid, e in out]
 
@@ -362,7 +369,7 @@ class _World:
             self.amplify_transient(hint_expr(op["a"], self.theme, self.container),
                                    hint_expr(op["b"], self.theme, self.container), amp)
             gc.collect()
-        if nxt is not None and (nxt["op"] == "clear" or (nxt["op"] == "redefine" and nxt["n"] == "D")):
+        if nxt is not None and (nxt["op"] == "clear" or (nxt["op"] == "redefine" and nxt["n"] in DECORATED)):
             self.amplify_pairs(max(4, amp // 4))
 
     def steer(self, n, budget=20000):
@@ -507,7 +514,7 @@ def render(job):
     theme, cont = job.get("theme", "class"), job.get("container", "list")
     lines = ["from beartype import beartype, BeartypeConf", "from beartype.door import *",
              class_def(theme, "A", 0), "class B: pass", "@beartype\nclass D: pass"]
-    gen = {"A": 0, "B": 0, "D": 0, "U": -1}
+    gen = {"A": 0, "B": 0, "D": 0, "U": -1, "W": -1}
     nf = 0
     for op in job["ops"]:
         k = op["op"]
@@ -702,9 +709,10 @@ def _ans_model(op, rec, gen, scope):
     if k in ("bearable", "die", "call"):
         ids = []
         mix = op.get("d") is not None and DESC[op["d"]][0] in MIX
+        typ = op.get("d") is not None and DESC[op["d"]][0] == "tref"
         for n in PROBE_NAMES[scope]:
             for g in range(gen[n] + 1):
-                ids += [f"bare:{n}:{g}", f"list:{n}:{g}"] + ([f"mix:{n}:{g}"] if mix else [])
+                ids += [f"bare:{n}:{g}", f"list:{n}:{g}"] + ([f"mix:{n}:{g}"] if mix else []) + ([f"type:{n}:{g}"] if typ else [])
         ids += ["none", "int", "true", "float"]
         if rec["exc"] != "none":
             return {i: rec["exc"] for i in ids}
@@ -819,7 +827,7 @@ def _history_class(h, k, theme, container, events):
     if events:
         ev = events[0]
         table = f"TypeHint.{ev['table']} (method_cached_arg_by_id, id-keyed)"
-        cleared = any(o["op"] == "clear" or (o["op"] == "redefine" and o["n"] == "D") for o in h.ops[ev["made_at"]:k + 1])
+        cleared = any(o["op"] == "clear" or (o["op"] == "redefine" and o["n"] in DECORATED) for o in h.ops[ev["made_at"]:k + 1])
         if not ev["old_hashable"]:
             return table, "wrapper of an unhashable hint freed after its call, address reused by a later wrapper"
         if cleared:
@@ -1049,7 +1057,7 @@ def run(rep, tier, seed):
         D = 4 if quick else 5
         runs = []
         for scope, mo in (("repr", D), ("reprT", D + 1), ("reprD", D + 1), ("idT", D - 1), ("idC", D), ("fail", D), ("conf", D), ("misc", D - 1),
-                          ("mix", D), ("mixB", D)):
+                          ("mix", D), ("mixB", D), ("tref", D + 1)):
             runs.append((f"intended {scope}", (d, [], scope, mo, PROPS, {"workers": 4}), True, None))
         runs += [
             ("faithful repr (F4a)", (d, FAITHFUL, "repr", D, ["ReturnFresh"], {"workers": 2}), False, ["ReturnFresh"]),
@@ -1070,13 +1078,17 @@ def run(rep, tier, seed):
             # dict['A', int] asked again after A is redefined
             ("mutant cacheable_last_child (two modules)", (d, ["cacheable_last_child"], "mix", D, ["ReturnFresh"], {"workers": 2}), False,
              ["ReturnFresh"]),
+            # clear_caches() forgets the proxies' issubclass() table: decorate f(x: type['W']), define W, call, redefine the
+            # decorated W (clears), call
+            ("mutant clear_forgets_reftype", (d, ["clear_forgets_reftype"], "tref", D + 1, ["ReturnFresh"], {"workers": 2}), False,
+             ["ReturnFresh"]),
             ("mutant cacheable_last_child (redefinition)", (d, ["cacheable_last_child"], "mixB", D, ["ReturnFresh"], {"workers": 2}), False,
              ["ReturnFresh"]),
         ]
         # graphs of the faithful model for the edge replay (no property: the whole graph is wanted)
         G = 3 if quick else 4
         graph_scopes = [("repr", G), ("reprT", G + 1), ("reprD", G + 1), ("idT", G), ("idC", G), ("fail", G), ("conf", G), ("misc", G),
-                        ("mix", G), ("mixB", G)]
+                        ("mix", G), ("mixB", G), ("tref", G + 2)]
         for scope, mo in graph_scopes:
             runs.append((f"graph {scope}", (d, FAITHFUL, scope, mo, ["TypeOK"],
                                             {"workers": 2, "dump_dot": os.path.join(d, f"g_{scope}")}), True, None))
@@ -1182,16 +1194,18 @@ def _replay_all(rep, pool, hists, quick, rnd):
     # Enum members / validator closures of different modules print alike -- at most one history per such theme and batch
     nb = (len(items) + B - 1) // B
     batches = [[] for _ in range(nb)]
-    # ... and a stringified forward reference is the same hint in every module: one such history per batch
+    # ... and a stringified forward reference is the same hint in every module: per batch at most one history
+    # referring to a given name by a string
     def bkey(i):
         h, theme, cont = items[i]
         if theme in ("enum", "validator"):
-            return (theme, cont)
+            return frozenset([(theme, cont)])
+        names = set()
         for o in h.ops:
             for f in ("d", "a", "b"):
-                if o.get(f) in DESC and (DESC[o[f]][0] == "ref" or DESC[o[f]][0] in MIX):
-                    return ("forward reference",)
-        return None
+                if o.get(f) in DESC and (DESC[o[f]][0] in ("ref", "tref") or DESC[o[f]][0] in MIX):
+                    names.add(("forward reference", DESC[o[f]][1]))
+        return frozenset(names) or None
     bkeys = [bkey(i) for i in range(len(items))]
     special = [i for i in range(len(items)) if bkeys[i] is not None]
     plain = [i for i in range(len(items)) if bkeys[i] is None]
@@ -1203,7 +1217,7 @@ def _replay_all(rep, pool, hists, quick, rnd):
                 batches.append([i])
                 break
             b = batches[(ptr + off) % len(batches)]
-            if len(b) < B and all(bkeys[j] != key for j in b):
+            if len(b) < B and all(bkeys[j] is None or not (bkeys[j] & key) for j in b):
                 b.append(i)
                 ptr = (ptr + off + 1) % len(batches)
                 break
